@@ -99,7 +99,7 @@ def gen_case(rng, tier, i):
 
 
 def gen(tier, rng):
-    n = 60 if tier == 'quick' else 600
+    n = 60 if tier == 'quick' else 200
     return [gen_case(rng, tier, i) for i in range(n)]
 
 
@@ -132,7 +132,7 @@ def run_parallel(cases, wd, tag):
     jobs = max(1, min(core.NCPU, 8, len(cases)))
     chunks = [cases[j::jobs] for j in range(jobs)]
     with cf.ThreadPoolExecutor(max_workers=jobs) as ex:
-        futs = [ex.submit(run_impl, IMPL, ch, wd, '%s%d' % (tag, j), 1700, 1) for j, ch in enumerate(chunks)]
+        futs = [ex.submit(run_impl, IMPL, ch, wd, '%s%d' % (tag, j), 1100, 1) for j, ch in enumerate(chunks)]
         outs = [f.result() for f in futs]
     if any(o[0] is None for o in outs):
         return None, '\n'.join(o[1] for o in outs)
@@ -150,11 +150,12 @@ def run_cases(v, wd, cases, tag, compare=True):
         return False
     got, want, idx = [], [], []
     tot = {'calls': 0, 'queries': 0, 'runs': 0, 'query_errors': 0, 'reruns': 0, 'skipped': 0, 'totals_pairs': 0,
-           'raised_and_left_state_perturbed': 0, 'query_kinds': {}}
+           'raised_and_left_state_perturbed': 0, 'ended_by_raising_query': 0, 'run_raises_in_both': 0,
+           'query_kinds': {}}
     for i, (c, r) in enumerate(zip(cases, results)):
         st = r.get('stats', {})
         for k in ('calls', 'queries', 'runs', 'query_errors', 'reruns', 'raised_and_left_state_perturbed',
-                  'totals_pairs'):
+                  'totals_pairs', 'ended_by_raising_query', 'run_raises_in_both'):
             tot[k] += st.get(k, 0)
         for k, n in st.get('query_kinds', {}).items():
             tot['query_kinds'][k] = tot['query_kinds'].get(k, 0) + n
